@@ -39,10 +39,17 @@ type vf37Hook struct {
 	nStart, nEnd int
 }
 
+// vf37TokSeq numbers hook tokens uniquely over the whole process (never reset),
+// so a token that code under test kept in a process-global cache from an
+// earlier execution cannot collide with a token of the current one.
+var vf37TokSeq int
+
 func (h *vf37Hook) OnDispatchStart(ctx context.Context, info DispatchInfo) (context.Context, HookToken) {
-	n := h.nStart
+	k := h.nStart
 	h.nStart++
-	if h.mode == "pstart" && n == h.k {
+	vf37TokSeq++
+	n := vf37TokSeq
+	if h.mode == "pstart" && k == h.k {
 		vf37Log = append(vf37Log, vf37Ev{Unit: vf37CurUnit, What: "start-panic", Tok: n, Info: info})
 		panic("verif: hook start panic")
 	}
